@@ -257,6 +257,15 @@ class PduBase(object):
         did = data.pop(0) if pfb.did else None
         return cls(pfb, did)
 
+    @classmethod
+    def mk2(cls, data, more):
+        kind = (0x02, 0x12)[more]
+        pfb = cls.PFB(kind, did=bool(data[1] & 4), pni=data[1] & 3, nad=False)
+        first = data[more]
+        if first > 9:
+            return cls(pfb, did=None)
+        return cls(did=first, pfb=pfb)
+
     def enc(self, tail):
         pfb = self.pfb
         b = (pfb.fmt << 4) | (pfb.nad << 3) | (pfb.did << 2) | pfb.pni
@@ -295,3 +304,65 @@ def batch3(key, data, cfg, step):
 
 def anyret(x):
     return (x, 1) if x > 3 else (x, 2, 3)
+
+
+def brty_kind(brty, other):
+    if brty.endswith('A'):
+        k = 1
+    elif brty.endswith('B') or brty.startswith('2'):
+        k = 2
+    else:
+        k = 3
+    if other is None:
+        return k, brty
+    name = brty if brty == other else brty + "/" + other
+    return k, name
+
+
+class Norm(object):
+    def __init__(self, did, data=None):
+        self.did = did if did else 0
+        self.data = bytearray() if data is None else data
+
+
+def mknorm(x, flag, opt):
+    if flag:
+        r = Norm(x)
+    else:
+        r = Norm(None, data=bytearray([x & 255]))
+    if len(r.data) + r.did > 5:
+        return Norm(opt, r.data + r.data)
+    return r
+
+
+class Socks(object):
+    def shuffle(self, a, b):
+        self.sock_list.appendleft(a)
+        self.sock_list.append(b)
+        self.sock_list.remove(b if a % 3 else a + 1)
+        self.send_list.popleft()
+        local = [a]
+        local.extend(self.send_list)
+        return local
+
+
+def nlen_pack(data, size):
+    import struct
+    lfmt = ">I" if size == 4 else ">H"
+    nlen = bytearray(struct.pack(lfmt, len(data) + size))
+    return nlen + data + struct.pack("<H" if size else ">B", size)
+
+
+class Socks2(object):
+    def insert(self, socket, ok):
+        if ok:
+            self.sock_list.appendleft(socket)
+            local = [1]
+        else:
+            local = []
+            local.append(socket)
+        for x in local:
+            self.sock_list.append(x + socket)
+            if x > 5:
+                self.sock_list.popleft()
+        return ok
